@@ -2,7 +2,7 @@ import TrackpyV.Props.C06
 import TrackpyV.Proofs.ShiftRefine
 import TrackpyV.Proofs.ShiftFind
 import TrackpyV.Proofs.TransposeRefine
--- import TrackpyV.Proofs.ShiftBandpass
+import TrackpyV.Proofs.ShiftBandpass
 /-!
 # C09 — feature finding does not depend on where or how the image is processed
 
@@ -475,6 +475,105 @@ example : (refineOne (3/5) (transImg exImg) (transImg exImg) [1, 1] [5, 5] 10
     (swapI [2, 2])).centre = [3, 2] := by decide +kernel
 
 end transpose
+
+/-! ## bandpass under a shift (2-D) -/
+
+section bandpass
+open Bandpass
+
+/-- **bandpass_embed_pixel.**  `big` shows `content` at `(oy, ox)` on a black `H × W` canvas with at
+least ONE black pixel on every side (so that the edge value `boxcar` replicates beyond the border
+is black, like the zeros `lowpass` assumes there).  Then every pixel `(r, c)` of `bandpass big`
+is `clip thr (lowZ − boxZ)` evaluated at the position `(r − oy, c − ox)` RELATIVE TO THE CONTENT —
+an expression in which neither the offset nor the canvas occurs. -/
+theorem bandpass_embed_pixel {h w oy ox H W : Nat} {content big : Array Rat}
+    (e : IsEmbedQ h w content oy ox H W big)
+    (py : 1 ≤ oy ∧ oy + h + 1 ≤ H) (pxx : 1 ≤ ox ∧ ox + w + 1 ≤ W)
+    (s0 s1 : Rat) (k0 k1 : Array Rat) (l0 l1 : Int) (thr : Option Rat) (out : Array Rat)
+    (hb : bandpass [H, W] big [s0, s1] [k0, k1] [l0, l1] thr = .ok out) {r c : Nat}
+    (hr : r < H) (hc : c < W) :
+    px W out r c =
+      clip (thrOf thr) (lowZ h w content s0 s1 k0 k1 ((r : Int) - oy) ((c : Int) - ox)
+                        - boxZ h w content l0 l1 ((r : Int) - oy) ((c : Int) - ox)) := by
+  have hp : r * W + c < big.size := by rw [e.size]; exact idx_lt hr hc
+  have := bandpass_pixel [H, W] big [s0, s1] [k0, k1] [l0, l1] thr out hb (r * W + c) hp
+  have e1 := lowpass_embed e s0 s1 k0 k1 hr hc
+  have e2 := boxcar_embed e py pxx l0 l1 hr hc
+  unfold px at e1 e2 ⊢
+  rw [this, e1, e2]
+  rfl
+
+/-- **bandpass_shift.**  Clause "moves … by exactly that offset", stage `bandpass`: two canvases
+showing the same content at different offsets (each with ≥ 1 black pixel around it); pixels at
+the same position relative to the content — `r₁ − oy₁ = r₂ − oy₂`, `c₁ − ox₁ = c₂ − ox₂` — have the same
+filtered value.  The filtered content, halo included, moves with the offset. -/
+theorem bandpass_shift {h w oy₁ ox₁ H₁ W₁ oy₂ ox₂ H₂ W₂ : Nat} {content big₁ big₂ : Array Rat}
+    (e₁ : IsEmbedQ h w content oy₁ ox₁ H₁ W₁ big₁) (e₂ : IsEmbedQ h w content oy₂ ox₂ H₂ W₂ big₂)
+    (py₁ : 1 ≤ oy₁ ∧ oy₁ + h + 1 ≤ H₁) (px₁ : 1 ≤ ox₁ ∧ ox₁ + w + 1 ≤ W₁)
+    (py₂ : 1 ≤ oy₂ ∧ oy₂ + h + 1 ≤ H₂) (px₂ : 1 ≤ ox₂ ∧ ox₂ + w + 1 ≤ W₂)
+    (s0 s1 : Rat) (k0 k1 : Array Rat) (l0 l1 : Int) (thr : Option Rat) (out₁ out₂ : Array Rat)
+    (hb₁ : bandpass [H₁, W₁] big₁ [s0, s1] [k0, k1] [l0, l1] thr = .ok out₁)
+    (hb₂ : bandpass [H₂, W₂] big₂ [s0, s1] [k0, k1] [l0, l1] thr = .ok out₂)
+    {r₁ c₁ r₂ c₂ : Nat} (hr₁ : r₁ < H₁) (hc₁ : c₁ < W₁) (hr₂ : r₂ < H₂) (hc₂ : c₂ < W₂)
+    (hy : (r₁ : Int) - oy₁ = (r₂ : Int) - oy₂) (hx : (c₁ : Int) - ox₁ = (c₂ : Int) - ox₂) :
+    px W₁ out₁ r₁ c₁ = px W₂ out₂ r₂ c₂ := by
+  rw [bandpass_embed_pixel e₁ py₁ px₁ s0 s1 k0 k1 l0 l1 thr out₁ hb₁ hr₁ hc₁,
+    bandpass_embed_pixel e₂ py₂ px₂ s0 s1 k0 k1 l0 l1 thr out₂ hb₂ hr₂ hc₂, hy, hx]
+
+theorem pxZ_out_y (h w : Nat) (content : Array Rat) (y x : Int) (hy : y < 0 ∨ (h : Int) ≤ y) :
+    pxZ h w content y x = 0 := by
+  rw [pxZ_eq, if_neg (by omega)]
+
+/-- **bandpass_blank_far.**  Farther from the content than the half-widths of the kernel and of
+the box (here: along axis 0, above or below it) the filtered canvas is exactly 0 — the thresholded
+result of a blank region is blank, whatever the threshold.  With `bandpass_shift`: the filtered
+canvases are two embeddings of one halo-extended content. -/
+theorem bandpass_blank_far {h w oy ox H W : Nat} {content big : Array Rat}
+    (e : IsEmbedQ h w content oy ox H W big)
+    (py : 1 ≤ oy ∧ oy + h + 1 ≤ H) (pxx : 1 ≤ ox ∧ ox + w + 1 ≤ W)
+    (s0 s1 : Rat) (k0 k1 : Array Rat) (l0 l1 : Int) (thr : Option Rat) (out : Array Rat)
+    (hb : bandpass [H, W] big [s0, s1] [k0, k1] [l0, l1] thr = .ok out) {r c : Nat}
+    (hr : r < H) (hc : c < W)
+    (hfar : ((r : Int) - oy + ((effKernel s0 k0).size : Int) - (((effKernel s0 k0).size / 2 : Nat) : Int) ≤ 0 ∧
+             (r : Int) - oy + (effSize l0 : Int) - ((effSize l0 / 2 : Nat) : Int) ≤ 0) ∨
+            ((h : Int) ≤ (r : Int) - oy - (((effKernel s0 k0).size / 2 : Nat) : Int) ∧
+             (h : Int) ≤ (r : Int) - oy - ((effSize l0 / 2 : Nat) : Int))) :
+    px W out r c = 0 := by
+  rw [bandpass_embed_pixel e py pxx s0 s1 k0 k1 l0 l1 thr out hb hr hc]
+  have hl : lowZ h w content s0 s1 k0 k1 ((r : Int) - oy) ((c : Int) - ox) = 0 := by
+    unfold lowZ
+    rw [← sumTo_zero (effKernel s0 k0).size]
+    apply sumTo_congr; intro a ha
+    rw [← sumTo_zero (effKernel s1 k1).size]
+    apply sumTo_congr; intro b _
+    rw [pxZ_out_y _ _ _ _ _ (by omega), mul_zero]
+  have hbx : boxZ h w content l0 l1 ((r : Int) - oy) ((c : Int) - ox) = 0 := by
+    unfold boxZ
+    have : sumTo (effSize l0) (fun a => sumTo (effSize l1) (fun b =>
+        pxZ h w content ((r : Int) - oy + (a : Int) - ((effSize l0 / 2 : Nat) : Int))
+          ((c : Int) - ox + (b : Int) - ((effSize l1 / 2 : Nat) : Int)))) = 0 := by
+      rw [← sumTo_zero (effSize l0)]
+      apply sumTo_congr; intro a ha
+      rw [← sumTo_zero (effSize l1)]
+      apply sumTo_congr; intro b _
+      exact pxZ_out_y _ _ _ _ _ (by omega)
+    rw [this, zero_div]
+  rw [hl, hbx, sub_zero, clip_zero]
+
+/-- non-vacuity: a 1×1 content (value 9) at (1,1) and at (2,2) on 4×4 / 5×5 canvases -/
+example : IsEmbedQ 1 1 #[9] 1 1 4 4 #[0,0,0,0, 0,9,0,0, 0,0,0,0, 0,0,0,0] :=
+  ⟨rfl, by decide, by decide, fun r c hr hc =>
+    (by decide +kernel : ∀ r, r < 4 → ∀ c, c < 4 →
+      px 4 #[0,0,0,0, 0,9,0,0, 0,0,0,0, 0,0,0,0] r c = pxZ 1 1 #[9] ((r : Int) - (1 : Nat)) ((c : Int) - (1 : Nat)))
+      r hr c hc⟩
+example : IsEmbedQ 1 1 #[9] 2 2 5 5
+    #[0,0,0,0,0, 0,0,0,0,0, 0,0,9,0,0, 0,0,0,0,0, 0,0,0,0,0] :=
+  ⟨rfl, by decide, by decide, fun r c hr hc =>
+    (by decide +kernel : ∀ r, r < 5 → ∀ c, c < 5 →
+      px 5 #[0,0,0,0,0, 0,0,0,0,0, 0,0,9,0,0, 0,0,0,0,0, 0,0,0,0,0] r c =
+        pxZ 1 1 #[9] ((r : Int) - (2 : Nat)) ((c : Int) - (2 : Nat))) r hr c hc⟩
+
+end bandpass
 
 /-! ## batch -/
 
